@@ -16,6 +16,19 @@ AllMsgs ==
   \cup {Msg("share", N + 1, Sh(N + 1, "prev"), "cur")}                     \* sender outside the group
   \cup {Msg("other", NextMember(Self), Sh(NextMember(Self), "prev"), "cur")} \* other payload type
 
+\* repeated messages of the same senders: correct, signed by another member,
+\* over another message, point at infinity, malformed -- two senders only, so
+\* that histories "valid then invalid", "invalid then valid", "valid then a
+\* different valid-looking share" of one sender are enumerated in depth
+TwoSenders == {CHOOSE s \in Others : \A t \in Others : s <= t,
+               CHOOSE s \in Others : \A t \in Others : s >= t}
+RepeatMsgs ==
+       {Msg("share", s, Sh(s, "prev"), "cur") : s \in TwoSenders}
+  \cup {Msg("share", s, Sh(NextMember(s), "prev"), "cur") : s \in TwoSenders}
+  \cup {Msg("share", s, Sh(s, "other"), "cur") : s \in TwoSenders}
+  \cup {Msg("share", s, InfShare, "cur") : s \in TwoSenders}
+  \cup {Msg("share", s, Garbage, "cur") : s \in TwoSenders}
+
 AllKnown == Members
 LastUnknown == Members \ {N}
 =============================================================================
